@@ -144,6 +144,17 @@ def make_pure(spec):
                 t += d * d
             return t * s + off
 
+    elif kind == "clipint":
+        # a reward clipped with an *integer* constant: returns a Python int where it is clipped, floats elsewhere
+        cap = int(spec.get("cap", 50))
+
+        def f(xs):
+            t = 0.0
+            for xi, ci in zip(xs, c):
+                d = xi - ci
+                t += d * d
+            return min(cap, t * s)
+
     elif kind == "abszero":
         # |x - c|_1 with integer centre: exact 0.0 reachable on faces / by local search
         def f(xs):
@@ -155,7 +166,19 @@ def make_pure(spec):
     else:
         raise ValueError("unknown objective kind %r" % (kind,))
 
-    if sign == 1.0:
+    if kind == "clipint":
+        # the raw return type is part of the case: no float() around it
+        if sign == 1.0:
+
+            def g(x):
+                return f(x.tolist())
+
+        else:
+
+            def g(x):
+                return -f(x.tolist())
+
+    elif sign == 1.0:
 
         def g(x):
             return float(f(x.tolist()))
@@ -194,6 +217,10 @@ def gen_objective(rng, dim, box, maximize, kinds=None):
     rngs = [hi - lo for lo, hi in box]
     mr = min(rngs)
     spec["center"] = inside()
+    if kind == "clipint":
+        mr2 = min(hi - lo for lo, hi in box)
+        spec["scale"] = 1.0
+        spec["cap"] = max(1, int(round((0.35 * mr2) ** 2 * dim)))
     if kind == "nanregion":
         lo0, hi0 = box[0]
         spec["nan_below"] = lo0 + (hi0 - lo0) * rng.choice([0.1, 0.2, 0.3])
